@@ -541,6 +541,13 @@ func (r *Raft) pipelineDecode(s *followerReplication, p AppendPipeline, stopCh, 
 			peer := s.peer
 			s.peerLock.RUnlock()
 
+			// A failed exchange carries no answer from the follower: fall back
+			// to standard replication without counting it as contact.
+			if err := ready.Error(); err != nil {
+				r.logger.Error("pipelined appendEntries failed", "peer", peer, "error", err)
+				return
+			}
+
 			req, resp := ready.Request(), ready.Response()
 			appendStats(string(peer.ID), ready.Start(), float32(len(req.Entries)), r.noLegacyTelemetry)
 
